@@ -5,12 +5,13 @@ import DarkluaModel.C18.Spec
 /-!
 Line-protocol handlers for property C18.
 
-* `c18.lex <src>`                          → `ok|err T C` — the reference lexer (Lex.lean) on `src`;
-                                             `T` = `kind:hex:line,…` or `-`, `C` = `hex:line,…` or `-`
+* `c18.lex <src>`                          → `ok|err <items>` — the reference lexer (Lex.lean) on `src`;
+                                             items in source order, comma separated (or `-`):
+                                             `T:kind:hex:line` code token, `C:hex:line` comment, `E:line` error
 * `c18.comment_text <text>`                → `<hex commentText> <linesCount>`          (Model.commentText)
 * `c18.h18 <text>`                         → `true|false`   (hypothesis of `append_safe_partial`; empty text: `empty`)
 * `c18.append_safe <text> <src>`           → `true|false`   (the statement `AppendSafeAt text src 1`, decided by running the lexer)
-* `c18.remove_comments <src> <pat>*`       → `code=… comments=… lines=…` of `removeComments LitPat.isMatch pats (toFile src)`
+* `c18.remove_comments <src> <pat>*`       → `code=… comments=… lines=… after=n` of `removeComments LitPat.isMatch pats (toFile src)`
 * `c18.remove_spaces <src>`                → same for `removeSpaces`
 * `c18.append <start|end> <text> <src>`    → same for `appendTextComment`
 * `c18.file <src>`                         → same for the unchanged file
@@ -29,17 +30,25 @@ def kindName : Kind → String
 def joinOrDash (xs : List String) : String :=
   if xs.isEmpty then "-" else ",".intercalate xs
 
-def showLex (r : LexResult) : String :=
-  (if r.ok then "ok " else "err ")
-    ++ joinOrDash (r.tokens.map fun t => kindName t.kind ++ ":" ++ bytesToHex t.bytes ++ ":" ++ toString t.line)
-    ++ " "
-    ++ joinOrDash (r.comments.map fun c => bytesToHex c.bytes ++ ":" ++ toString c.line)
+/-- items in source order: `T:kind:hex:line`, `C:hex:line`; a final `E:line` marks a lexical error -/
+def showItems (items : List Item) : String :=
+  (if okOf items then "ok " else "err ")
+    ++ joinOrDash (items.map fun
+        | .tok t => "T:" ++ kindName t.kind ++ ":" ++ bytesToHex t.bytes ++ ":" ++ toString t.line
+        | .com c => "C:" ++ bytesToHex c.bytes ++ ":" ++ toString c.line
+        | .err _ line => "E:" ++ toString line)
 
 /-- Build the token model of a lexed file. A comment is trailing trivia of the previous token when no
 line break separates them (full_moon's rule), otherwise leading trivia of the next token; what is left
 at the end is leading trivia of the final (end-of-file) token. Whitespace trivia are not rebuilt. -/
 def toFileAux : List Item → List Token → List Trivia → Option Nat → Option File
-  | [], acc, pending, cur => some ⟨acc.reverse, some ⟨[], cur, pending, []⟩⟩
+  | [], acc, pending, cur =>
+    -- a semicolon that ends the file's last statement is a block-level token (`after`)
+    match acc with
+    | semi :: acc' =>
+      if semi.content = [59] ∧ !acc'.isEmpty then some ⟨acc'.reverse, [semi], some ⟨[], cur, pending, []⟩⟩
+      else some ⟨acc.reverse, [], some ⟨[], cur, pending, []⟩⟩
+    | [] => some ⟨[], [], some ⟨[], cur, pending, []⟩⟩
   | .err _ _ :: _, _, _, _ => none
   | .tok t :: r, acc, pending, _ =>
     toFileAux r (⟨t.bytes, some t.line, pending, []⟩ :: acc) [] (some (t.line + countNl t.bytes))
@@ -58,6 +67,7 @@ def showFile (f : File) : String :=
     ++ " lines=" ++ joinOrDash (f.codeLines.map fun
         | some n => toString n
         | none => "_")
+    ++ " after=" ++ toString (f.after.filter fun t => !t.content.isEmpty).length
 
 def parsePat (s : String) : Option LitPat :=
   match s.toList with
@@ -80,7 +90,7 @@ def handle (op : String) (args : List String) : String :=
   match op, args with
   | "lex", [src] =>
     match hexToBytes? src with
-    | some b => showLex (lex b)
+    | some b => showItems (lexItems b)
     | none => "bad-request"
   | "comment_text", [text] =>
     match hexToBytes? text with
